@@ -2061,9 +2061,17 @@ class Data(BaseCartesianData):
         # By default fast-histogram drops values that are exactly xmax, so we
         # increase xmax very slightly to make sure that this doesn't happen, to
         # be consistent with np.histogram.
+        # For a zero-width range all the values we kept are equal to xmin, and
+        # any positive width puts them in the first bin (without this, a
+        # zero-width range at zero gives a subnormal width below, for which
+        # fast-histogram computes an invalid bin index and crashes).
         if ndim >= 1:
+            if xmax == xmin:
+                xmax = xmin + 1
             xmax += 10 * np.spacing(xmax)
         if ndim >= 2:
+            if ymax == ymin:
+                ymax = ymin + 1
             ymax += 10 * np.spacing(ymax)
 
         if ndim == 1:
